@@ -8,3 +8,6 @@ open Femio.C15 Femio.Gradient
 #print axioms C15_moment_expanded
 #print axioms C15_row_weight_scale
 #print axioms C15_integer_affine_field
+#print axioms C15_det_underflow_counterexample
+#print axioms C15_held_results_stable
+#print axioms C15_work_array_counterexample
